@@ -28,6 +28,10 @@ pub struct MigCase {
 	pub dest_compression: Vec<u8>,
 	pub force: Vec<bool>,
 	pub overwrite: bool,
+	/// further transactions that are logged and synced but not applied when the source is
+	/// captured (a source left by an unclean stop: `migrate` has to replay its log first)
+	#[serde(default)]
+	pub pending: Vec<Vec<Item>>,
 }
 
 fn src_col() -> impl Strategy<Value = ColCfg> {
@@ -60,8 +64,9 @@ pub fn mig_case() -> impl Strategy<Value = MigCase> {
 		// already live in their final index page (holes inside a page)
 		let commits = proptest::collection::vec(prop_oneof![6 => mixed_items(&cfg, 14, 70_000, 8, 3).prop_map(Op::Commit), 1 => Just(Op::Drain)], 2..14);
 		let cfg2 = cfg.clone();
-		(commits, proptest::collection::vec(any::<u8>(), n..=n), proptest::collection::vec(0u8..3, n..=n), proptest::collection::vec(any::<bool>(), n..=n), any::<bool>(), any::<bool>()).prop_map(
-			move |(mut ops, dest, dest_compression, force, overwrite, drain_after_bulk)| {
+		let pending = prop_oneof![2 => Just(Vec::new()), 1 => proptest::collection::vec(mixed_items(&cfg, 14, 20_000, 6, 3), 1..4)];
+		(commits, proptest::collection::vec(any::<u8>(), n..=n), proptest::collection::vec(0u8..3, n..=n), proptest::collection::vec(any::<bool>(), n..=n), any::<bool>(), any::<bool>(), pending).prop_map(
+			move |(mut ops, dest, dest_compression, force, overwrite, drain_after_bulk, pending)| {
 				// crafted column: bulk insert so that the index must grow once
 				for (i, c) in cfg2.cols.iter().enumerate() {
 					if matches!(c.keyset, KeySet::Crafted { .. }) {
@@ -80,7 +85,7 @@ pub fn mig_case() -> impl Strategy<Value = MigCase> {
 				// (a source closed with an index growth still pending is the known finding
 				// migrate-misses-older-index-generation: every generated source is drained)
 				ops.push(Op::Drain);
-				MigCase { sc: Scenario { cfg: cfg2.clone(), ops }, dest, dest_compression, force, overwrite }
+				MigCase { sc: Scenario { cfg: cfg2.clone(), ops }, dest, dest_compression, force, overwrite, pending }
 			},
 		)
 	})
@@ -123,8 +128,38 @@ pub fn run_case(case: &MigCase, dir: &Path) -> CaseResult {
 		it.step(op)?;
 	}
 	it.check_reads(true)?;
-	it.ensure_room_for_close()?;
-	it.close();
+	if !case.pending.is_empty() {
+		for tx in &case.pending {
+			it.step(&Op::Commit(tx.clone()))?;
+		}
+		for _ in 0..case.pending.len() + 1 {
+			it.step(&Op::P)?;
+		}
+		it.step(&Op::F)?;
+		it.check_reads(true)?;
+		let growing = it.db().verif_pipeline_state().6 ||
+			crate::image::file_sizes(&src_dir).keys().filter(|n| n.starts_with("index_")).map(|n| n[..8].to_string()).collect::<std::collections::BTreeSet<_>>().len() <
+				crate::image::file_sizes(&src_dir).keys().filter(|n| n.starts_with("index_")).count();
+		if growing {
+			// an index growth pending in the source is the known finding: drain instead
+			it.step(&Op::Drain)?;
+			out.label("pending-source-would-grow-drained-instead");
+		} else {
+			// capture the directory as the unclean stop leaves it
+			let img = dir.join("srcimg");
+			crate::image::copy_dir(&src_dir, &img).map_err(|e| Failure::new("harness-io", e.to_string()))?;
+			crate::image::set_faults(0);
+			it.close();
+			crate::image::disarm();
+			let _ = std::fs::remove_dir_all(&src_dir);
+			std::fs::rename(&img, &src_dir).map_err(|e| Failure::new("harness-io", e.to_string()))?;
+			out.label("source-with-pending-log");
+		}
+	}
+	if it.is_open() {
+		it.ensure_room_for_close()?;
+		it.close();
+	}
 	let src_model = it.model.clone();
 	let universe = it.universe.clone();
 	let addr = it.addr.clone();
@@ -263,7 +298,7 @@ pub fn known_pending_growth_case() -> MigCase {
 		Op::E,
 		Op::C,
 	];
-	MigCase { sc: Scenario { cfg, ops }, dest: vec![1], dest_compression: vec![1], force: vec![true], overwrite: false }
+	MigCase { sc: Scenario { cfg, ops }, dest: vec![1], dest_compression: vec![1], force: vec![true], overwrite: false, pending: Vec::new() }
 }
 
 fn known_regression(ctx: &Ctx) {
